@@ -46,7 +46,7 @@ def attach(rec):
     wrap(DataProviderLinked, "align_index", rec=rec, key="mon:align_index")
 
 
-def make_case(axes, tol, method, weights=None, seed=0, nt=None):
+def make_case(axes, tol, method, weights=None, seed=0, nt=None, idxdep=False):
     datasets = []
     id0 = 0
     rng = np.random.default_rng(seed)
@@ -57,9 +57,11 @@ def make_case(axes, tol, method, weights=None, seed=0, nt=None):
                          "dseed": int(rng.integers(2**31)), "id0": id0, "weight": "dataset" if (weights and weights[d]) else None,
                          "scale": None, "mc_scale": None})
         id0 += n * len(g)
-    return {"datasets": datasets, "megacomplexes": {"m1": {"labels": ["a", "b"], "rates": ["k.1", "k.2"], "disp": None}},
+    # idxdep: the model matrix really depends on the global index (each stacked column must meet ITS OWN matrix)
+    return {"datasets": datasets, "megacomplexes": {"m1": {"labels": ["a", "b"], "rates": ["k.1", "k.2"], "disp": "dsp.1" if idxdep else None}},
             "global_megacomplexes": {}, "groups": {"g1": {"link_clp": True, "residual_function": "variable_projection"}},
-            "parameters": {"k.1": {"value": 1.3}, "k.2": {"value": 0.2}}, "link_tolerance": float(tol), "link_method": method,
+            "parameters": dict({"k.1": {"value": 1.3}, "k.2": {"value": 0.2}}, **({"dsp.1": {"value": 0.05, "vary": False}} if idxdep else {})),
+            "link_tolerance": float(tol), "link_method": method,
             "constraints": [], "relations": [], "penalties": [], "weights": [], "features": {"link_clp": True}}
 
 
@@ -157,10 +159,12 @@ def check_optimize(case, rec):
     # at least 8 time points per dataset: with 3-4 the fit has no degrees of freedom left (residuals <= clps +
     # parameters) and the statistics of create_result are undefined (C13 territory, not alignment)
     ds = case["datasets"]
-    if any(len(d["t"]) < 8 for d in ds):
+    idxdep = bool(ds[0]["dseed"] % 2)
+    if any(len(d["t"]) < 8 for d in ds) or idxdep:
         big = make_case([d["g"] for d in ds], case["link_tolerance"], case["link_method"], weights=[d["weight"] for d in ds],
-                        seed=ds[0]["dseed"] % 1000, nt=[max(len(d["t"]), 8 + i) for i, d in enumerate(ds)])
+                        seed=ds[0]["dseed"] % 1000, nt=[max(len(d["t"]), 8 + i) for i, d in enumerate(ds)], idxdep=idxdep)
         case = big
+        rec.count("optimize_checked_index_dependent" if idxdep else "optimize_checked_index_independent")
     c03.run_case(case, rec)
 
 
